@@ -104,7 +104,7 @@ class CacheProp(Prop):
                                          run="^TestVerifStoreRace$", extra_env=env2)
             m2 = re.search(r"storerace ok rounds=(\d+)", out2)
             ctx.notes.append("store-level sweep race: %s (rc=%d)" % (m2.group(0) if m2 else "no ok line", rc2))
-            hit2 = [k for k in self.stress_kinds if "stress %s:" % k in out2]
+            hit2 = [k for k in tuple(self.stress_kinds) + ("hang",) if "stress %s:" % k in out2]
             if hit2:
                 i = out2.index("stress %s:" % hit2[0])
                 fails.append(("store-level race: " + out2[i:i + 300].splitlines()[0],
